@@ -315,7 +315,7 @@ class Env:
             d = a - b
             if isinstance(d, R) and not d.concrete:
                 # discharge equalities in sum-of-monomials normal form (DESIGN §1.4)
-                n = z3.simplify(core.tz(d.n), som=True)
+                n = tf._canon(core.tz(d.n))
                 return SB(n == 0)
             if isinstance(d, R):
                 # both sides concrete: they may carry libm-evaluated constants, compare like doubles
@@ -897,8 +897,9 @@ def validate_config(scen, cfg, lib, seed, n=3, tries=40):
                         + (('\n' + e1.tb) if getattr(e1, 'tb', None) else '') + (('\n' + e2.tb) if getattr(e2, 'tb', None) else ''))
             continue
         agree, why = traces_agree(e1.trace, e2.trace)
-        c1 = [(n_, o) for n_, o, _ in e1.checks]
-        c2 = [(n_, o) for n_, o, _ in e2.checks]
+        d2 = {n_: o for n_, o, _ in e2.checks}
+        c1 = [(n_, o) for n_, o, _ in e1.checks if n_ in d2]
+        c2 = [(n_, d2[n_]) for n_, o in c1]
         if not agree or c1 != c2:
             bad += 1
             msgs.append(f'trace mismatch: {why or [x for x in zip(c1, c2) if x[0] != x[1]][:3]} values={_jsonable(vals)}')
